@@ -21,7 +21,8 @@ SYM_TYPES = (SymReal, SymInt, LogVal, SymBool)
 
 def is_sym(x) -> bool:
     from .fp import SymFP, SymBV
-    return isinstance(x, SYM_TYPES + (SymFP, SymBV))
+    from .rnd import SymRnd
+    return isinstance(x, SYM_TYPES + (SymFP, SymBV, SymRnd))
 
 
 class SymArray(np.ndarray):
